@@ -551,15 +551,26 @@ impl<'tcx> Interp<'tcx> {
                     let kind = format!("{:?}", msg);
                     let kind = kind.split('(').next().unwrap_or("").to_string();
                     let key = format!("{}|bb{}|assert:{}", bi.name, bb.as_usize(), kind);
-                    self.sites.insert(key, Site { inst: bi.name.clone(), kind: format!("assert:{}", kind), msg: String::new(),
-                        site: site_str(self.tcx, term.source_info.span), visits: 0, violated: false, witness: String::new(), roots: BTreeSet::new() });
+                    let snip = self.tcx.sess.source_map().span_to_snippet(term.source_info.span.source_callsite()).unwrap_or_default();
+                    let snip: String = snip.split_whitespace().collect::<Vec<_>>().join(" ");
+                    let opk = match &**msg {
+                        mir::AssertKind::Overflow(op, ..) => format!("{:?}", op),
+                        _ => String::new(),
+                    };
+                    self.sites.insert(key, Site { inst: bi.name.clone(), kind: format!("assert:{}{}", kind, opk), msg: snip.chars().take(120).collect(),
+                        site: site_str(self.tcx, term.source_info.span), visits: 0, violated: false, witness: String::new(), roots: BTreeSet::new(), ctxs: BTreeSet::new() });
                 }
                 TerminatorKind::Call { func, target, .. } => {
                     if let Some((name, _)) = self.callee_name(&bi.body, func) {
                         if is_panic_fn(&name) && target.is_none() {
                             let key = format!("{}|bb{}|panic:{}", bi.name, bb.as_usize(), short_fn(&name));
-                            self.sites.insert(key, Site { inst: bi.name.clone(), kind: format!("panic:{}", short_fn(&name)), msg: self.panic_message(&bi.body, bb.as_usize()),
-                                site: site_str(self.tcx, term.source_info.span), visits: 0, violated: false, witness: String::new(), roots: BTreeSet::new() });
+                            let mut pm = self.panic_message(bi, bb.as_usize());
+                            if pm.is_empty() {
+                                let snip = self.tcx.sess.source_map().span_to_snippet(term.source_info.span.source_callsite()).unwrap_or_default();
+                                pm = snip.split_whitespace().collect::<Vec<_>>().join(" ").chars().take(120).collect();
+                            }
+                            self.sites.insert(key, Site { inst: bi.name.clone(), kind: format!("panic:{}", short_fn(&name)), msg: pm,
+                                site: site_str(self.tcx, term.source_info.span), visits: 0, violated: false, witness: String::new(), roots: BTreeSet::new(), ctxs: BTreeSet::new() });
                         }
                     }
                 }
@@ -569,7 +580,24 @@ impl<'tcx> Interp<'tcx> {
     }
 
     /// best-effort extraction of the literal message of a panic block (for stable keys)
-    fn panic_message(&self, body: &mir::Body<'tcx>, bb: usize) -> String {
+    fn panic_message(&self, bi: &BodyInfo<'tcx>, bb: usize) -> String {
+        // the literal usually sits in the block that builds fmt::Arguments, a predecessor
+        let mut cur = bb;
+        for _ in 0..4 {
+            let m = self.panic_message_in(&bi.body, cur);
+            if !m.is_empty() {
+                return m;
+            }
+            let preds = &bi.cfg.pred[cur];
+            if preds.len() != 1 {
+                break;
+            }
+            cur = preds[0];
+        }
+        String::new()
+    }
+
+    fn panic_message_in(&self, body: &mir::Body<'tcx>, bb: usize) -> String {
         let data = &body.basic_blocks[cfg_bb(bb)];
         let mut out = String::new();
         for s in &data.statements {
@@ -597,9 +625,13 @@ impl<'tcx> Interp<'tcx> {
 
     pub fn site_visit(&mut self, key: &str, ok: bool, witness: String) {
         let root = self.cur_root.clone();
+        let ctx = if ok { String::new() } else { self.call_path() };
         if let Some(s) = self.sites.get_mut(key) {
             s.visits += 1;
             if !ok {
+                if s.ctxs.len() < 12 && !ctx.is_empty() {
+                    s.ctxs.insert(ctx);
+                }
                 if !s.violated {
                     s.witness = witness;
                 }
@@ -608,11 +640,68 @@ impl<'tcx> Interp<'tcx> {
             }
         } else if !ok {
             self.sites.insert(key.to_string(), Site { inst: self.stack.last().map(|b| b.name.clone()).unwrap_or_default(), kind: "model".into(), msg: String::new(),
-                site: String::new(), visits: 1, violated: true, witness, roots: [root].into_iter().collect() });
+                site: String::new(), visits: 1, violated: true, witness, roots: [root].into_iter().collect(), ctxs: BTreeSet::new() });
         } else {
             self.sites.insert(key.to_string(), Site { inst: self.stack.last().map(|b| b.name.clone()).unwrap_or_default(), kind: "model".into(), msg: String::new(),
-                site: String::new(), visits: 1, violated: false, witness: String::new(), roots: BTreeSet::new() });
+                site: String::new(), visits: 1, violated: false, witness: String::new(), roots: BTreeSet::new(), ctxs: BTreeSet::new() });
         }
+    }
+
+    pub fn call_path(&self) -> String {
+        let mut v: Vec<String> = Vec::new();
+        for b in self.stack.iter() {
+            let n = b.short.clone();
+            if n.starts_with("{closure") {
+                continue;
+            }
+            if v.last() != Some(&n) {
+                v.push(n);
+            }
+        }
+        v.join(">")
+    }
+
+    /// re-apply memoised violations of a callee at the current call site
+    pub fn replay_violations(&mut self, viol: &[(String, Vec<String>)]) {
+        let base = self.call_path();
+        let root = self.cur_root.clone();
+        for (key, rels) in viol {
+            if let Some(s) = self.sites.get_mut(key) {
+                s.visits += 1;
+                s.violated = true;
+                s.roots.insert(root.clone());
+                for r in rels {
+                    if s.ctxs.len() < 16 {
+                        s.ctxs.insert(if r.is_empty() { base.clone() } else { format!("{}>{}", base, r) });
+                    }
+                }
+            }
+        }
+    }
+
+    /// violations recorded since `before`, with call paths relative to the current stack
+    pub fn violations_since(&self, before: &std::collections::BTreeSet<String>, callee_prefix: &str) -> Vec<(String, Vec<String>)> {
+        let base = self.call_path();
+        let mut out = Vec::new();
+        for (k, s) in self.sites.iter() {
+            if !s.violated || !s.roots.contains(&self.cur_root) {
+                continue;
+            }
+            let is_new = !before.contains(k);
+            let pre = format!("{}>", base);
+            let sub = format!("{}>", callee_prefix);
+            let rels: Vec<String> = s
+                .ctxs
+                .iter()
+                .filter(|c| c.starts_with(&pre))
+                .map(|c| c[pre.len()..].to_string())
+                .filter(|r| r == callee_prefix || r.starts_with(&sub))
+                .collect();
+            if !rels.is_empty() || (is_new && s.ctxs.is_empty()) {
+                out.push((k.clone(), rels));
+            }
+        }
+        out
     }
 
     /// obligation raised by a std model (slice range, expect, copy_from_slice...) at the current call site
@@ -719,20 +808,29 @@ impl<'tcx> Interp<'tcx> {
             st.atoms = at.itv;
             if let Some(l) = l {
                 st.frames[fi].locals[l as usize] = Val::Int(r.clone());
-                // write the refinement back to the place the temp was loaded from
-                let ver = st.frames[fi].vers[l as usize];
-                let org = st.frames[fi].origin.iter().find(|e| e.0 == l && e.1 == ver).cloned();
-                if let Some((_, _, ptr, bver)) = org {
-                    if st.frames[ptr.frame as usize].vers[ptr.local as usize] == bver {
-                        if let Val::Int(old) = st.read(&ptr) {
-                            let mut n = old.clone();
-                            n.lo = n.lo.max(r.lo);
-                            n.hi = n.hi.min(r.hi);
-                            if n.lo > n.hi {
-                                return false;
-                            }
-                            st.refine_at(&ptr, Val::Int(n));
+                // write the refinement back to the place the temp was loaded from (transitively:
+                // `_5 = copy _3; _3 = copy (*_2)`)
+                let mut cur_l = l;
+                for _ in 0..4 {
+                    let ver = st.frames[fi].vers[cur_l as usize];
+                    let org = st.frames[fi].origin.iter().find(|e| e.0 == cur_l && e.1 == ver).cloned();
+                    let Some((_, _, ptr, bver)) = org else { break };
+                    if st.frames[ptr.frame as usize].vers[ptr.local as usize] != bver {
+                        break;
+                    }
+                    if let Val::Int(old) = st.read(&ptr) {
+                        let mut n = old.clone();
+                        n.lo = n.lo.max(r.lo);
+                        n.hi = n.hi.min(r.hi);
+                        if n.lo > n.hi {
+                            return false;
                         }
+                        st.refine_at(&ptr, Val::Int(n));
+                    }
+                    if ptr.proj.is_empty() && ptr.frame as usize == fi {
+                        cur_l = ptr.local;
+                    } else {
+                        break;
                     }
                 }
             }
